@@ -37,6 +37,8 @@
 //	more than 64 values is printed as #<n>:<digest of the sorted values>.  The driver decodes
 //	this back into one record per operation and checks every one of them.
 //
+// Round 7: Z lines = distinct.BufferSize(ε, δ, expSize), see bufsize.go.
+//
 // With -stat it runs the statistical supporting step instead (real NewCounter, fresh entropy): the mean
 // of Count over independent fresh counters and, since round 6 (stat6.go), over runs separated by Reset
 // on one counter, and the (Len, Count) trajectories of runs compared with each other against the
@@ -314,6 +316,10 @@ func replayLine(w *tr.W, in string) {
 	f := strings.Fields(in)
 	if len(f) >= 5 && f[0] == "S" {
 		replayScale(w, f)
+		return
+	}
+	if len(f) >= 1 && f[0] == "Z" { // BufferSize (bufsize.go)
+		w.Case(in, runZ(f), true, "replayed")
 		return
 	}
 	if len(f) < 5 || f[0] != "H" {
@@ -879,6 +885,7 @@ func main() {
 		g := &gen{o: o, r: tr.NewRand(o.Seed), w: w}
 		g.run()
 		g.scale()
+		g.bufsize()
 	}
 	w.Close(o, rule, nil)
 }
